@@ -35,6 +35,35 @@ Require Import Verif.Model.Base Verif.Model.Dec Verif.Model.Level Verif.Model.Mo
 Require Import Verif.Model.Utf8 Verif.Model.Quote Verif.Model.Attrs Verif.Model.Encode Verif.Model.Logfmt.
 Require Import Verif.Proofs.QuoteP Verif.Proofs.EscP Verif.Proofs.SortP Verif.Proofs.LogfmtP.
 Require Import Verif.Corr.Enc.
+Require Import Verif.Model.GoSem.
+Require Verif.Gen.Escapes Verif.Gen.Tables Verif.Proofs.GenEscP.
+
+(* ---- the source against the model: appendQuotedWith and appendEscapedRune as they are in /repo now
+   (translated on every run, Gen/Escapes.v), called as appendQuotedString calls them (double quote,
+   not ASCII-only, not graphic-only), append exactly the model's quote_go / escape_rune to the buffer:
+   for every strconv.IsPrint [isprint], every isInGraphicList [gl], every byte string and every rune
+   in Z.  The loop of appendQuotedWith consumes width >= 1 bytes per round (declared fuel len(s)+1),
+   the hex loops of appendEscapedRune run 4 / 8 rounds (fuel 5 / 9); [None] would be a panic (an
+   index or slice out of range) or insufficient fuel: neither happens.  C06 prints values through the
+   same function. ---- *)
+Theorem C05_gen_escape_rune : forall isprint gl buf r,
+  Escapes.escape_rune isprint gl Tables.t_hex buf r 34 false false = Some (buf ++ escape_rune isprint r).
+Proof. exact GenEscP.gen_escape_rune. Qed.
+Print Assumptions C05_gen_escape_rune.
+
+Theorem C05_gen_quote : forall isprint gl buf s,
+  Escapes.quote_with isprint gl Tables.t_hex buf s 34 false false = Some (buf ++ quote_go isprint s).
+Proof. exact GenEscP.gen_quote_with. Qed.
+Print Assumptions C05_gen_quote.
+
+(* a string value: PrintCtx.appendQuotedString as it is in /repo now - the JSON escaper between two
+   quotes in JSON mode, appendQuotedWith otherwise; a helper it calls (a fast path) would be translated
+   with it *)
+Theorem C05_gen_quoted_string : forall isprint gl jsonMode buf str,
+  Escapes.quoted_string isprint gl Tables.t_hex Tables.t_safeSet jsonMode buf str =
+  Some (buf ++ if jsonMode then JsonEsc.json_quote str else quote_go isprint str).
+Proof. exact GenEscP.gen_quoted_string. Qed.
+Print Assumptions C05_gen_quoted_string.
 
 Definition ascii_consistent (isprint : Z -> bool) : Prop :=
   forall r, 0 <= r < 128 -> isprint r = (32 <=? r) && (r <? 127).
